@@ -74,7 +74,7 @@ class Parser:
         k, v = self.next()
         if k != 'id':
             raise SpecError('type expected at %r in %r' % (v, self.text))
-        if v == 'seq' or v == 'map':
+        if v == 'seq' or v == 'map' or v == 'fmap':
             self.expect('[')
             t = self.parse_type()
             if v == 'map':
@@ -82,7 +82,7 @@ class Parser:
                 t2 = self.parse_type()
                 return ('map', t, t2)
             self.expect(']')
-            return ('seq', t)
+            return (v, t)
         if self.peek()[1] == '.' and self.peek(1)[0] == 'id':
             self.next()
             v = v + '.' + self.next()[1]
@@ -524,12 +524,17 @@ class ContractSet:
                 cur_loop.modifies = [parse_assign_target(x) for x in split_top(rest)]
             elif kw == 'use':
                 # use lemma(args) [at callN|loopN|exit]
+                cond = None
+                if ' if ' in rest:
+                    rest, ctext = rest.split(' if ', 1)
+                    cond = parse_expr(ctext)
+                    rest = rest.strip()
                 m2 = re.match(r'(\w+)\s*\((.*)\)\s*(?:at\s+(\S+))?$', rest, re.S)
                 if not m2:
                     raise SpecError('bad use clause %r' % rest)
                 args = [parse_expr(x) for x in split_top(m2.group(2))] if m2.group(2).strip() else []
                 site = m2.group(3) or ('loop%d' % sorted(target.loops)[-1] if cur_loop is not None and False else 'all')
-                target.uses.append((site, m2.group(1), args, cur_loop))
+                target.uses.append((site, m2.group(1), args, cond))
             elif kw == 'trigger':
                 m2 = re.match(r'(\w+)\s*\((.*)\)$', rest)
                 target.triggers.append((m2.group(1), [x.strip() for x in m2.group(2).split(',')]))
@@ -577,6 +582,10 @@ class ContractSet:
             self.assumptions.append('trusted contract (not verified): %s' % (fc.key,))
 
     def parse_lemma(self, prog, pkg, word, g):
+        g = list(g)
+        while len(g) > 1 and not re.match(r'[a-z\-]+', g[1]).group(0) in FUNC_CLAUSES if len(g) > 1 and re.match(r'[a-z\-]+', g[1]) else len(g) > 1:
+            g[0] = g[0] + ' ' + g[1]
+            del g[1]
         head = g[0][len(word):].strip()
         m = re.match(r'(\w+)\s*', head)
         name = m.group(1)
@@ -634,6 +643,8 @@ def resolve_type(prog, pkg, tast):
         return '[]' + resolve_type(prog, pkg, tast[1])
     if k == 'seq':
         return 'seq[' + resolve_type(prog, pkg, tast[1]) + ']'
+    if k == 'fmap':
+        return 'fmap[' + resolve_type(prog, pkg, tast[1]) + ']'
     if k == 'map':
         return 'map[' + resolve_type(prog, pkg, tast[1]) + ']' + resolve_type(prog, pkg, tast[2])
     n = tast[1]
